@@ -139,6 +139,29 @@ def check_case(case):
                         observed=dict(rows=len(got.t), t=[float(x) for x in np.asarray(got.t)][:5]), expected=dict(rows=len(T[::step])))
             except Exception as e:
                 r.v("C19/slice/%s" % name, "a time slice spanning the whole run returns the whole run", dict(cs, slice=nm), observed=repr(e)[:200], expected="rows")
+    # ---- interior time slices (a weak reading of 'lookup by time', on top of the whole-run claim): the result is a contiguous stretch of the run in run
+    #      order that contains every recorded sample lying between the two bounds and at most one sample beyond each bound
+    if n > 3:
+        dsg = 1.0 if T[-1] > T[0] else -1.0
+        k1, k2 = n // 4, (3 * n) // 4
+        bounds = [(T[k1], T[k2]), (T[k1] + (T[k1 + 1] - T[k1]) * dtype(0.5), T[k2] + (T[k2 - 1] - T[k2]) * dtype(0.5)), (T[1], T[n - 2]), (T[0], T[k2]), (T[k1], T[-1])]
+        for (qa, qb) in bounds:
+            r.n += 1
+            try:
+                got = a[slice(qa, qb)]
+                gt = np.asarray(got.t)
+                inside = [i for i in range(n) if (T[i] - qa) * dsg >= 0 and (qb - T[i]) * dsg >= 0]
+                idx = [int(np.nonzero(T == x)[0][0]) for x in gt] if all(np.any(T == x) for x in gt) else None
+                ok = idx is not None and idx == list(range(idx[0], idx[0] + len(idx))) if (idx is not None and len(idx)) else (idx is not None and not inside)
+                if ok and len(idx):
+                    ok = set(inside) <= set(idx) and len([i for i in idx if (T[i] - qa) * dsg < 0]) <= 1 and len([i for i in idx if (qb - T[i]) * dsg < 0]) <= 1
+                if not ok:
+                    r.v("C19/slice-interior/%s" % name, "a time slice returns the contiguous stretch of the run between its bounds (at most one sample beyond each)", dict(cs, slice=[float(qa), float(qb)]),
+                        observed=dict(rows=len(gt), first=float(gt[0]) if len(gt) else None, last=float(gt[-1]) if len(gt) else None), expected=dict(inside=len(inside)))
+                    break
+            except Exception as e:
+                r.v("C19/slice-interior/%s" % name, "a time slice returns the contiguous stretch of the run between its bounds", dict(cs, slice=[float(qa), float(qb)]), observed=repr(e)[:200], expected="rows")
+                break
     r.out((case["method"], case["dense"], d, case["hist"], min(n, 12)))
     r.samples.append(dict(case=case, rows=n, queries=len(qs) + len(outside)))
     return r
